@@ -95,6 +95,8 @@ class World:
         self.calls = []            # every step-API call (top level or from inside work_fn): op, ret, before, after
         self.mark = None           # (view, len(acq_log)) at the latest callback of the running execute_operation
         self.scripted_events = []  # terminations asked for by the scripted callbacks of the running execute_operation
+        self.cur_info = None       # monitor record of the innermost running execute_operation
+        self.encl = ()             # ids of the execute_operation calls in progress, innermost first
         # created_at / phase_entered_at come from a default_factory bound at import: re-stamp
         orig_start = self.ctl.start_operation
 
@@ -108,7 +110,8 @@ class World:
 
         def acquire_resource(ctx, resource_id):
             r = orig_acq(ctx, resource_id)
-            self.acq_log.append((onum(ctx.operation_id), rnum(resource_id), LRES[r.value]))
+            # a LockResult the property does not know (anything but the four below) is logged as code 8
+            self.acq_log.append((onum(ctx.operation_id), rnum(resource_id), LRES.get(r.value, 8)))
             return r
         self.ctl.acquire_resource = acquire_resource
         # wrap the default checkpoint conditions: log every evaluation, inject scripted faults
@@ -156,6 +159,19 @@ class World:
             elif act[0] == "look":
                 if self.look():
                     self.log.append([199])
+            elif act[0] == "exec":
+                # a NESTED coordinated operation, run from inside this work function: one row in the log of the
+                # enclosing call - [3, 50, success, phase, (len, row)*] over the nested call's own callback log
+                parent_log, parent_info = self.log, self.cur_info
+                rows, sub = self.exec_op(act, nested=True)
+                if sub is None:
+                    parent_log.append([3, 50, -1])
+                else:
+                    enc = [3, 50] + rows[0][1:]
+                    for r in rows[1:]:
+                        enc += [len(r) - 1] + r[1:]
+                    parent_log.append(enc)
+                    parent_info["nested"].append(sub)
             else:
                 e0 = len(events)
                 self.log.append([3] + self.fstep(act[1]))
@@ -254,7 +270,7 @@ class World:
                 return [-1]
             if k == "acq":
                 try:
-                    return [LRES[c.acquire_resource(ctx, rname(r)).value]]
+                    return [LRES.get(c.acquire_resource(ctx, rname(r)).value, 8)]
                 except ValueError:
                     return [9]
             return [int(bool(c.release_resource(ctx, rname(r))))]
@@ -308,16 +324,20 @@ class World:
             return [0]
         raise ValueError(f"unknown op {a}")
 
-    def exec_op(self, a):
-        """-> (obs rows, info for the monitor)"""
+    def exec_op(self, a, nested=False):
+        """-> (obs rows, info for the monitor).  Re-entrant: a work function may run a nested execute_operation."""
         _, o, p, reqs, sc = a
-        # a retry may re-use the id of an operation that has ended; never the id of a live one
-        if oname(o) in self.ctl.active_operations:
+        # a retry may re-use the id of an operation that has ended; never the id of a live one, and never (from
+        # inside a callback) the id of an operation whose execute_operation call is still in progress
+        if oname(o) in self.ctl.active_operations or o in self.encl:
             return [[100, -1]], None
         self.ever.add(o)
         log = []
-        info = {"op": o, "reqs": list(reqs), "entry": None, "acq_from": len(self.acq_log)}
+        info = {"op": o, "reqs": list(reqs), "entry": None, "acq_from": len(self.acq_log), "script": sc,
+                "nested": [], "depth": len(self.encl), "before": self.view()}
+        saved = (self.script, self.cp_count, self.log, self.mark, self.scripted_events, self.cur_info, self.encl)
         self.script, self.cp_count, self.log = sc, 0, log
+        self.cur_info, self.encl = info, (o,) + tuple(self.encl)
         self.mark = (self.view(), len(self.acq_log))
         events = self.sys.watchdog.events
         ev_from = len(events)
@@ -357,13 +377,18 @@ class World:
                                                  validate_fn=None if sc["validate"] == "none" else validate_fn,
                                                  priority=p)
                 success = bool(res.success)
+            last_view, last_acq = self.mark
         finally:
-            self.script, self.log = None, None
+            (self.script, self.cp_count, self.log, self.mark, parent_scripted, self.cur_info, self.encl) = saved
+            # what a nested call's scripts asked for was asked for by the enclosing work function as well
+            parent_scripted.extend(scripted_events)
+            self.scripted_events = parent_scripted
         info["success"] = success
         info["log"] = log
         info["acqs"] = self.acq_log[info["acq_from"]:]
-        info["last_view"], last_acq = self.mark
+        info["last_view"] = last_view
         info["acqs_after_last_callback"] = self.acq_log[last_acq:]
+        info["after"] = self.view()
         # terminations of THIS operation during the call that its own work script did not ask for
         info["killed_by_system"] = [e.reason.value for e in events[ev_from:]
                                     if e.operation_id == oname(o) and id(e) not in scripted_events]
@@ -463,7 +488,13 @@ def coq_cact(x):
 
 def coq_script(sc):
     # ["look"] (read-only accessors) is not part of the model's alphabet
-    work = clist(["WProbe" if x[0] == "probe" else f"(WDo {coq_fop(x[1])})" for x in sc["work"] if x[0] != "look"])
+    def wact(x):
+        if x[0] == "probe":
+            return "WProbe"
+        if x[0] == "exec":
+            return f"(WExec {cz(x[1])} {cz(x[2])} {clist([cz(r) for r in x[3]])} {coq_script(x[4])})"
+        return f"(WDo {coq_fop(x[1])})"
+    work = clist([wact(x) for x in sc["work"] if x[0] != "look"])
     cpw = clist([clist([coq_cact(x) for x in acts if x[0] != "look"]) for acts in sc.get("cpw", [])])
     return (f"(mkScript {clist([CPO[c] for c in sc['cp']])} {cpw} {work} {cbool(sc['raises'])} "
             f"{VFN[sc['validate']]})")
@@ -541,12 +572,25 @@ class C14(Check):
             "get_boost, is_boosted, str(CellHealth)) between the operations and inside the callbacks - both are NOT part of the "
             "model's alphabet (stripped from the Coq case), so any effect they have is a disagreement, and a visible state "
             "change is reported by the monitor. "
+            "Widened for nested calls and long-lived lock state: a work function may run a NESTED execute_operation on the "
+            "same system (own request list, priority and fault script; to depth 3 in the random stream) - exhaustive part: "
+            "enclosing request lists x 13 faults of the enclosing operation (every failure AFTER the nested call returned) x "
+            "nested operation on a free / preemptable-and-held-by-the-encloser / blocked-by-the-encloser resource x its own "
+            "faults; refused ids (enclosing, live); a second nested call under the id the first used; depth 2; the nested work "
+            "function kills the enclosing operation / shuts down; each followed by an operation that needs the same resources. "
+            "The property is monitored for EVERY execute_operation call, nested or not (state sampled when that call "
+            "returns). Crowds: n distinct operations (n = 2..13 quick, ..40 thorough; ids up to 24 in the random stream) are "
+            "refused one held resource one after the other (execute_operation with [r1] / [r2, r1], step API, mixed; "
+            "priorities below/equal/above the holder's, rising/falling/equal), so ResourceLock.waiting_list grows to n "
+            "entries across the calls; then the holder lets go and the next operation must get it. "
             "non-trivial = some fault, repeat, pre-held resource or scripted callback; distinct by content")
     LEVEL_TEXT = ("Coq theorems, for every well-formed controller state (an invariant proved to be preserved by every operation, so every "
                   "reachable state), every request list, priority, fault script, scripted work function and scripted checkpoint callbacks "
-                  "(manual kill of any operation incl. the executing one, watchdog pass, maintenance pass, shutdown, time passing): after "
+                  "(manual kill of any operation incl. the executing one, watchdog pass, maintenance pass, shutdown, time passing), "
+                  "work functions that run NESTED execute_operation calls with scripts of their own to any depth: after "
                   "execute_operation of an id that is not live (fresh, or of an operation that has ended) nothing is owned by it "
-                  "and it is not active; resources it never obtained keep owner/hold_count/priority; "
+                  "and it is not active - also for a call nested in the work functions of other operations, each of which may "
+                  "have been delisted and still hold locks (c14_nested_no_leak); resources it never obtained keep owner/hold_count/priority; "
                   "work_fn is invoked at most once and then the operation is active and owns every requested resource (an operation "
                   "ended while a checkpoint callback ran never runs its work); validation only after work "
                   "returned; success iff work and validation succeeded (and the checkpoints passed); the same no-leak statement for "
@@ -554,7 +598,7 @@ class C14(Check):
                   "nobody, terminates) and, as an invariant, every owner is an active operation. The "
                   "model is tied to the code by running both on the same generated histories (model evaluated by vm_compute).")
     LEVEL_NOTE = ("Trusts: Coq kernel+VM; the correspondence harness; an operation id is never that of a live operation (driver-enforced; "
-                  "execute_operation may re-use the id of an ended one); single-threaded calls; checkpoint callbacks restricted to the "
+                  "execute_operation may re-use the id of an ended one, but a nested call never the id of an operation whose call encloses it); single-threaded calls; checkpoint callbacks restricted to the "
                   "termination alphabet (kill / watchdog / run_maintenance / shutdown / time); PriorityInheritance.active_boosts (the "
                   "remembered original priorities) is not part of the model state: nothing in the system reads it back. Axioms: none.")
     TECHNIQUE = "Coq proof of a state invariant + per-call postconditions; vm_compute correspondence against operon_ai.coordination"
@@ -566,9 +610,14 @@ class C14(Check):
                "original priorities (active_boosts; restore_priority / clear_all on live operations) are C15's extended alphabet",
                "IntegratedCell's quality / surveillance side (tagging, proteasome, immune observation) is executed but not modelled: "
                "it must be transparent to the coordination observations",
-               "read-only accessors are executed and must be transparent (not in the model's alphabet)"]
+               "read-only accessors are executed and must be transparent (not in the model's alphabet)",
+               "a nested execute_operation is observed by the enclosing one as ONE callback event (its encoded result and "
+               "callback log); nested calls are made from work functions only (not from validate_fn / checkpoint callbacks)",
+               "a LockResult other than acquired/blocked/reentrant/preempted is logged as code 8 (the model has no such "
+               "result: any occurrence is a disagreement) and counts as 'not obtained' in the monitor"]
     ASSUMPTIONS = ["an operation is never started under the id of a LIVE operation; start_operation (step API) ids are fresh; "
-                   "execute_operation may re-use the id of an operation that has ended, but not from inside a callback of that id",
+                   "execute_operation may re-use the id of an operation that has ended, but not from inside a callback of that id "
+                   "(a nested call never uses the id of an operation whose execute_operation call is still in progress)",
                    "checkpoint callbacks end operations / let time pass (kill, watchdog.execute, run_maintenance, shutdown, tick) and inspect locks; "
                    "they do not acquire or release resources themselves",
                    "resources are registered before the history starts and never re-registered",
@@ -626,7 +675,7 @@ class C14(Check):
                 out.append(["probe"])
         return out
 
-    def _rand_script(self, rng, me, ops_pool, res_pool):
+    def _rand_script(self, rng, me, ops_pool, res_pool, depth=0):
         name, sc = rng.choice(FAULTS)
         sc = {**sc, "cp": list(sc["cp"]), "cpw": [], "work": []}
         if rng.random() < 0.3:
@@ -643,7 +692,41 @@ class C14(Check):
             else:
                 a = self._rand_fop(rng, ops_pool + [me, me], res_pool)
                 sc["work"].append(["do", a])
+        # a nested coordinated operation run from inside the work function (with a script of its own, which may
+        # nest again); its id is mostly another one, sometimes that of the enclosing / a live operation (refused)
+        if depth < 3 and rng.random() < (0.22 if depth == 0 else 0.3):
+            for _ in range(rng.choice([1, 1, 2])):
+                o2 = rng.choice([x for x in ops_pool if x != me] * 4 + [me])
+                reqs2 = [rng.choice(res_pool) for _ in range(rng.choice([0, 1, 1, 2]))]
+                sub = self._rand_script(rng, o2, ops_pool, res_pool, depth + 1) if rng.random() < 0.7 \
+                    else plain_script(work=[["probe"]])
+                sc["work"].insert(rng.randint(0, len(sc["work"])), ["exec", o2, rng.choice([0, 1, 3, 7, 9]), reqs2, sub])
         return sc
+
+    def _rand_crowd(self, rng, res, res_pool):
+        r = res[0][0]
+        ph = rng.choice([0, 3, 5])
+        n = rng.choice([3, 6, 9, 10, 12, 14, 18])
+        ops = [["start", 1, ph, False], ["acq", 1, r]]
+        ids = rng.sample(range(2, 25), n)
+        for j, o in enumerate(ids):
+            p = rng.choice([0, 0, ph, ph - 1, ph + 1, j, n - j]) if res[0][1] is False else rng.choice([0, ph, ph - 1, min(j, ph)])
+            kind = rng.random()
+            if kind < 0.65:
+                other = [x for x in res_pool if x != r]
+                reqs = ([rng.choice(other)] if other and rng.random() < 0.5 else []) + [r]
+                ops.append(["exec", o, p, reqs, plain_script(work=[["probe"]], validate=rng.choice(["none", "true"]))])
+            elif kind < 0.9:
+                ops += [["start", o, p, False], ["acq", o, r]]
+            else:
+                ops.append(["exec", o, p, [r], self._rand_script(rng, o, ids, res_pool)])
+            if rng.random() < 0.1:
+                ops.append(rng.choice([["pop", r], ["maint"], ["wd"], ["tick", 1]]))
+        ops.append(rng.choice([["rel", 1, r], ["complete", 1], ["kill", 1], ["abort", 1]]))
+        ops.append(["exec", rng.choice(ids), rng.choice([0, 9]), [r], plain_script(work=[["probe"]])])
+        if rng.random() < 0.5:
+            ops.append(["shutdown"])
+        return ops
 
     def _rand_queue(self, rng, res, res_pool):
         r = res[0][0]
@@ -731,6 +814,11 @@ class C14(Check):
                 # priority inversion: run_maintenance boosts the holders along the blocking chain; a boosted operation
                 # then preempts what it was blocked on, also while another operation's work function runs
                 ops = self._rand_inversion(rng, res)
+            elif mode < 0.76 and mode >= 0.7:
+                # a crowd: many DISTINCT operations contend for one held resource (the waiting list grows with every
+                # refused contender and is carried across the calls), then the holder lets go
+                ops_pool = list(range(1, 25))
+                ops = self._rand_crowd(rng, res, res_pool)
             elif mode < 0.7:
                 # starvation: operations advanced to G1 through the step API wait for their resources
                 w["starve"] = rng.choice([1, 2, -1])
@@ -877,7 +965,78 @@ class C14(Check):
         out += self._callback_termination_cases()
         out += self._queue_cases()
         out += self._maintenance_cases()
+        out += self._nested_cases()
+        out += self._crowd_cases()
         return self._decorate(out)
+
+    def _nested_cases(self):
+        """execute_operation called from inside the work function of another execute_operation: the enclosing
+        operation (every request-list shape x every fault, in particular every failure AFTER the nested call returned)
+        x the nested operation (free / preemptable-and-held-by-the-encloser / blocked-by-the-encloser resources x
+        commits, work raising, validation false, checkpoint failing; refused ids; nesting depth 2; the nested work
+        function kills the enclosing operation), followed by an operation that needs the same resources."""
+        res = [[1, False], [2, True], [3, True]]
+        quick = self.tier == "quick"
+        sub_faults = [(n, sc) for n, sc in FAULTS if not quick or n in ("none", "work-raise", "validate-false", "cp1-false")]
+        outer_reqs = ([1], [2, 1]) if quick else ([1], [2, 1], [1, 1], [3, 2, 1], [])
+        out = []
+
+        def case(reqs, sc_out, work, w=None, pre=()):
+            sc1 = {**sc_out, "work": work}
+            ops = list(pre) + [["exec", 1, 3, list(reqs), sc1],
+                               ["exec", 4, 0, list(reqs), plain_script(work=[["probe"]])], ["shutdown"]]
+            out.append({"res": res, "w": dict(w or NOW), "ops": ops})
+        for reqs in outer_reqs:
+            for _name, sc_out in FAULTS:
+                # the nested operation: r3 is free, r2 is the encloser's (preemptable: taken when the nested priority
+                # is higher, refused otherwise), r1 is the encloser's and not preemptable (the nested call is blocked)
+                for nreqs, npr in (([3], 0), ([2], 9), ([2], 3), ([3, 1], 9)):
+                    for _n2, sc_in in sub_faults:
+                        sub = {**sc_in, "work": [["probe"]]}
+                        case(reqs, sc_out, [["probe"], ["exec", 2, npr, nreqs, sub], ["probe"]])
+                # ids the driver refuses: the enclosing operation itself, a live operation
+                case(reqs, sc_out, [["exec", 1, 0, [3], plain_script()], ["exec", 5, 0, [3], plain_script()], ["probe"]],
+                     pre=[["start", 5, 0, False]])
+                # two nested calls in a row, the second under the id the first one used (it has ended)
+                case(reqs, sc_out, [["exec", 2, 0, [3], plain_script(raises=True)],
+                                    ["exec", 2, 0, [3, 3], plain_script(work=[["probe"]], validate="true")], ["probe"]])
+                # depth 2; the innermost fails / the middle one fails after the innermost returned
+                for mid in (plain_script(), plain_script(validate="false"), plain_script(raises=True)):
+                    inner = ["exec", 3, 9, [2], plain_script(work=[["probe"]])]
+                    case(reqs, sc_out, [["exec", 2, 5, [3], {**mid, "work": [inner, ["probe"]]}], ["probe"]])
+                # the nested work function ends the ENCLOSING operation (kill / shutdown / its own kill), then returns
+                for act in (["kill", 1], ["shutdown"], ["kill", 2]):
+                    case(reqs, sc_out, [["exec", 2, 0, [3], plain_script(work=[["do", act], ["probe"]])], ["probe"]])
+        return out
+
+    def _crowd_cases(self):
+        """State carried by ResourceLock.waiting_list across MANY calls: n distinct operations (n up to 13 quick / 40
+        thorough) are refused the held resource one after the other - through execute_operation (request list [r1] /
+        [r2, r1]) or the step API -, at priorities below / equal to / above the holder's and rising / falling / equal
+        among themselves; every one of them must be refused (work_fn runs only while the operation holds everything);
+        then the holder lets go and the next operation gets the resource."""
+        out = []
+        sizes = (2, 5, 9, 13) if self.tier == "quick" else (2, 5, 8, 9, 10, 13, 17, 24, 40)
+        for pre in (False, True):
+            res = [[1, pre], [2, False]]
+            for n in sizes:
+                for ph, prios in ((5, lambda j: 0), (5, lambda j: j), (5, lambda j: n - j), (0, lambda j: 0),
+                                  (5, lambda j: 5 if pre is False else 4), (3, lambda j: (j * 7) % 4)):
+                    for how in ("exec", "exec2", "step", "mixed"):
+                        ops = [["start", 1, ph, False], ["acq", 1, 1]]
+                        for j in range(n):
+                            o, p = 2 + j, prios(j)
+                            if pre and p > ph:
+                                p = ph          # a higher priority would preempt: that is the inversion family's business
+                            kind = how if how != "mixed" else ("exec", "step", "exec2")[j % 3]
+                            if kind == "step":
+                                ops += [["start", o, p, False], ["acq", o, 1]]
+                            else:
+                                ops.append(["exec", o, p, [1] if kind == "exec" else [2, 1],
+                                            plain_script(work=[["probe"]], validate="true")])
+                        ops += [["rel", 1, 1], ["exec", 2 + n, 0, [1, 2], plain_script(work=[["probe"]])], ["shutdown"]]
+                        out.append({"res": res, "w": dict(NOW), "ops": ops})
+        return out
 
     def _maintenance_cases(self):
         """run_maintenance (priority inheritance + watchdog), operations advanced to G1 through the step API
@@ -1061,56 +1220,10 @@ class C14(Check):
                 return Violation("C14/accessor-changed-state",
                                  f"step {i}: the read-only accessors changed {diff or 'the observable state'}: "
                                  f"{ {f: (before[f], after.get(f)) for f in diff} }")
-            if k == "exec" and st["info"] is not None and [199] in st["info"]["log"]:
-                return Violation("C14/accessor-changed-state",
-                                 f"step {i}: read-only accessors called from inside a callback of execute_operation "
-                                 f"(op{st['info']['op']}) changed the observable state; log {st['info']['log']}")
             if k == "exec" and st["info"] is not None:
-                info = st["info"]
-                o = info["op"]
-                # the final complete/abort of execute_operation: same rule, from the latest callback on
-                lv = info["last_view"]
-                got = {r for (oo, r, res) in info["acqs_after_last_callback"] if oo == o and res != 1}
-                for r, (ow, h, _p) in lv["owners"].items():
-                    if ow != o and r not in got and owners[r][:2] != (ow, h):
-                        return Violation("C14/foreign-lock-changed",
-                                         f"step {i}: execute_operation(op{o}) ended; r{r} was owned by "
-                                         f"{'nobody' if ow == -1 else 'op%d' % ow} (hold {h}) at its last callback and is now {owners[r][:2]}")
-                if info["success"] and info["killed_by_system"]:
-                    return Violation("C14/success-after-kill",
-                                     f"step {i}: op{o} was terminated during the call ({info['killed_by_system']}, not by its own work script) but success=True is reported")
-                if owned_by(o) or o in after["active"]:
-                    return Violation("C14/leak-after-execute", f"step {i}: after execute_operation(op{o}, {info['reqs']}) it still owns {owned_by(o)} / active={o in after['active']}")
-                log = info["log"]
-                works = [j for j, e in enumerate(log) if e == [1]]
-                if len(works) > 1:
-                    return Violation("C14/work-twice", f"step {i}: work_fn invoked {len(works)} times")
-                if works:
-                    ent = info["entry"]["owners"]
-                    missing = [r for r in info["reqs"] if r in ent and ent[r][0] != o]
-                    if missing or any(r not in ent for r in info["reqs"]):
-                        return Violation("C14/work-without-resources", f"step {i}: work_fn of op{o} invoked while it does not own {missing} of {info['reqs']}")
-                    if o not in info["entry"]["active"]:
-                        return Violation("C14/work-without-resources", f"step {i}: work_fn of op{o} invoked while op{o} is not an active operation")
-                rets = [j for j, e in enumerate(log) if e == [4]]
-                vals = [j for j, e in enumerate(log) if e[0] in (6, 7)]
-                if vals and (not rets or vals[0] < rets[0]):
-                    return Violation("C14/validate-before-work", f"step {i}: validation ran before work_fn returned: {log}")
-                sc = a[4]
-                val_ok = sc["validate"] == "none" or [6, 1] in log
-                if info["success"] and not (rets and val_ok):
-                    return Violation("C14/success-without-both", f"step {i}: success reported, log {log}")
-                cps = [e for e in log if e[0] == 0]
-                all_pass = len(cps) == 4 and all(e[2] == 1 for e in cps[1:])
-                if bool(rets and val_ok and all_pass) != info["success"]:
-                    return Violation("C14/success-mismatch", f"step {i}: success={info['success']} but log {log}")
-                # resources never obtained by this operation (and not touched by its scripted work) are untouched
-                obtained = {r for (oo, r, res) in info["acqs"] if oo == o and res != 1}
-                scripted = any(x[0] == "do" for x in sc["work"]) or any(x[0] == "do" for acts in sc.get("cpw", []) for x in acts)
-                if not scripted:
-                    for r, v in before["owners"].items():
-                        if r not in obtained and owners[r] != v:
-                            return Violation("C14/unobtained-touched", f"step {i}: r{r} was never obtained by op{o} but changed {v} -> {owners[r]}")
+                v = self._monitor_exec(i, st["info"])
+                if v is not None:
+                    return v
             if k in ("complete", "abort", "kill") and (owned_by(a[1]) or a[1] in after["active"]):
                 return Violation("C14/leak-after-" + k, f"step {i} {a}: still owns {owned_by(a[1])} / active={a[1] in after['active']}")
             if k in ("wd", "maint"):
@@ -1119,6 +1232,69 @@ class C14(Check):
                         return Violation("C14/leak-after-watchdog", f"step {i}: op{v} was terminated but still owns {owned_by(v)} / is active")
             if k == "shutdown" and (after["active"] or any(ow != -1 for ow, _h, _p in owners.values())):
                 return Violation("C14/leak-after-shutdown", f"step {i}: after shutdown active={after['active']} owners={owners}")
+        return None
+
+    def _monitor_exec(self, i, info):
+        """The property for ONE execute_operation call (top level, or nested in the work function of another one:
+        the statement is about every coordinated operation), on what the implementation did during that call."""
+        o, sc, log = info["op"], info["script"], info["log"]
+        before, after = info["before"], info["after"]
+        owners = after["owners"]
+        where = f"step {i}" + (f" (nested, depth {info['depth']})" if info["depth"] else "")
+        # the nested calls made by its work function first (they returned earlier)
+        for sub in info["nested"]:
+            v = self._monitor_exec(i, sub)
+            if v is not None:
+                return v
+        if [199] in log:
+            return Violation("C14/accessor-changed-state",
+                             f"{where}: read-only accessors called from inside a callback of execute_operation "
+                             f"(op{o}) changed the observable state; log {log}")
+
+        def owned_by(x):
+            return [r for r, (ow, _h, _p) in owners.items() if ow == x]
+        # the final complete/abort of execute_operation: same rule, from the latest callback on
+        lv = info["last_view"]
+        got = {r for (oo, r, res) in info["acqs_after_last_callback"] if oo == o and res in (0, 2, 3)}
+        for r, (ow, h, _p) in lv["owners"].items():
+            if ow != o and r not in got and owners[r][:2] != (ow, h):
+                return Violation("C14/foreign-lock-changed",
+                                 f"{where}: execute_operation(op{o}) ended; r{r} was owned by "
+                                 f"{'nobody' if ow == -1 else 'op%d' % ow} (hold {h}) at its last callback and is now {owners[r][:2]}")
+        if info["success"] and info["killed_by_system"]:
+            return Violation("C14/success-after-kill",
+                             f"{where}: op{o} was terminated during the call ({info['killed_by_system']}, not by its own work script) but success=True is reported")
+        if owned_by(o) or o in after["active"]:
+            return Violation("C14/leak-after-execute", f"{where}: after execute_operation(op{o}, {info['reqs']}) it still owns {owned_by(o)} / active={o in after['active']}")
+        works = [j for j, e in enumerate(log) if e == [1]]
+        if len(works) > 1:
+            return Violation("C14/work-twice", f"{where}: work_fn invoked {len(works)} times")
+        if works:
+            ent = info["entry"]["owners"]
+            missing = [r for r in info["reqs"] if r in ent and ent[r][0] != o]
+            if missing or any(r not in ent for r in info["reqs"]):
+                return Violation("C14/work-without-resources", f"{where}: work_fn of op{o} invoked while it does not own {missing} of {info['reqs']}"
+                                 f" (owners then: { {r: ent[r][0] for r in info['reqs'] if r in ent} })")
+            if o not in info["entry"]["active"]:
+                return Violation("C14/work-without-resources", f"{where}: work_fn of op{o} invoked while op{o} is not an active operation")
+        rets = [j for j, e in enumerate(log) if e == [4]]
+        vals = [j for j, e in enumerate(log) if e[0] in (6, 7)]
+        if vals and (not rets or vals[0] < rets[0]):
+            return Violation("C14/validate-before-work", f"{where}: validation ran before work_fn returned: {log}")
+        val_ok = sc["validate"] == "none" or [6, 1] in log
+        if info["success"] and not (rets and val_ok):
+            return Violation("C14/success-without-both", f"{where}: success reported, log {log}")
+        cps = [e for e in log if e[0] == 0]
+        all_pass = len(cps) == 4 and all(e[2] == 1 for e in cps[1:])
+        if bool(rets and val_ok and all_pass) != info["success"]:
+            return Violation("C14/success-mismatch", f"{where}: success={info['success']} but log {log}")
+        # resources never obtained by this operation (and not touched by its scripted work) are untouched
+        obtained = {r for (oo, r, res) in info["acqs"] if oo == o and res in (0, 2, 3)}
+        scripted = any(x[0] in ("do", "exec") for x in sc["work"]) or any(x[0] == "do" for acts in sc.get("cpw", []) for x in acts)
+        if not scripted:
+            for r, v in before["owners"].items():
+                if r not in obtained and owners[r] != v:
+                    return Violation("C14/unobtained-touched", f"{where}: r{r} was never obtained by op{o} but changed {v} -> {owners[r]}")
         return None
 
     def nontrivial(self, case, obs, steps):
@@ -1146,9 +1322,13 @@ class C14(Check):
                 used.add(a[1])
             if any(l[0] != -1 and any(w == l[0] for w, _p in l[3]) for l in st["after"].get("queues", {}).values()):
                 ks.append("owner-has-stale-queue-entry")
+            wl = max([len(l[3]) for l in st["after"].get("queues", {}).values()] or [0])
+            if wl >= 4:
+                ks.append("waiting-list>=" + str(4 if wl < 8 else 8 if wl < 12 else 12 if wl < 20 else 20))
             if a[0] == "exec" and st["info"]:
                 info = st["info"]
                 ks.append("exec-success" if info["success"] else "exec-failed")
+                ks += self._nested_tags(a[4], info)
                 if any(x[0] == "look" for acts in [a[4]["work"]] + a[4].get("cpw", []) for x in acts):
                     ks.append("accessors-inside-callback")
                 for c in st["calls"]:
@@ -1168,7 +1348,7 @@ class C14(Check):
                 if len(set(a[3])) < len(a[3]):
                     ks.append("exec-repeated-request")
                 for (_o, _r, res) in info["acqs"]:
-                    ks.append("acquire=" + ["acquired", "blocked", "reentrant", "preempted"][res])
+                    ks.append("acquire=" + {0: "acquired", 1: "blocked", 2: "reentrant", 3: "preempted"}.get(res, "other-result"))
                 for e in info["log"]:
                     if e[0] == 0 and e[2] == 0:
                         ks.append(f"cp{e[1]}-failed")
@@ -1188,9 +1368,68 @@ class C14(Check):
                 ks.append("pop=" + ("waiter" if st["ret"][0] == 1 else "none"))
         return ks
 
+    @staticmethod
+    def _nested_tags(sc, info):
+        ks = []
+        subs = list(info["nested"])
+        n_exec = sum(1 for x in sc["work"] if x[0] == "exec")
+        if n_exec:
+            ks.append("nested-exec")
+            if n_exec > len(subs):
+                ks.append("nested-exec-refused-id")
+        for sub in subs:
+            ks.append("nested-exec-success" if sub["success"] else "nested-exec-failed")
+            if not info["success"]:
+                ks.append("enclosing-failed-after-nested")
+            if any(res == 3 and oo == sub["op"] for (oo, _r, res) in sub["acqs"]):
+                ks.append("nested-preempts")
+            if any(res == 1 and oo == sub["op"] for (oo, _r, res) in sub["acqs"]):
+                ks.append("nested-blocked")
+            if info["op"] not in sub["after"]["active"] and info["op"] in sub["before"]["active"]:
+                ks.append("nested-ended-the-enclosing-operation")
+            if sub["nested"]:
+                ks.append("nested-depth>=2")
+            ks += [k for k in C14._nested_tags(sub["script"], sub) if k.startswith("nested-depth")]
+        return ks
+
     def shrink(self, case, pred):
         ops = common.shrink_list(case["ops"], lambda xs: len(xs) > 0 and pred({**case, "ops": xs}))
-        return {**case, "ops": ops}
+        case = {**case, "ops": ops}
+        # then the scripts: drop callback bodies / single actions / nested calls that the failure does not need
+        for _round in range(40):
+            for cand in self._simpler(case):
+                try:
+                    ok = pred(cand)
+                except Exception:
+                    ok = False
+                if ok:
+                    case = cand
+                    break
+            else:
+                break
+        return case
+
+    @staticmethod
+    def _simpler_scripts(sc):
+        """Scripts one simplification step away from [sc] (recursively inside nested calls)."""
+        if sc.get("cpw"):
+            yield {**sc, "cpw": []}
+        if sc["cp"]:
+            yield {**sc, "cp": []}
+        for j, x in enumerate(sc["work"]):
+            yield {**sc, "work": sc["work"][:j] + sc["work"][j + 1:]}
+        for j, x in enumerate(sc["work"]):
+            if x[0] == "exec":
+                for sub in C14._simpler_scripts(x[4]):
+                    yield {**sc, "work": sc["work"][:j] + [x[:4] + [sub]] + sc["work"][j + 1:]}
+
+    def _simpler(self, case):
+        if case["w"].get("via") == "cell":
+            yield {**case, "w": {k: v for k, v in case["w"].items() if k not in ("via", "pool", "agent")}}
+        for i, a in enumerate(case["ops"]):
+            if a[0] == "exec":
+                for sc in self._simpler_scripts(a[4]):
+                    yield {**case, "ops": case["ops"][:i] + [a[:4] + [sc]] + case["ops"][i + 1:]}
 
 
 CHECK = C14
